@@ -31,8 +31,9 @@ type Property struct {
 	Run func(x *Ctx)
 	// Check is the oracle for one (case, result); used by Run and by replay
 	Check func(x *Ctx, c *proto.Case, r *proto.Result)
-	// Race: the property wants the -race worker in the thorough tier
 	Assumptions []string
+	// Technique names the deciding method (MANIFEST technique field)
+	Technique string
 }
 
 var registry = map[string]*Property{}
@@ -45,10 +46,21 @@ func main() {
 	replay := flag.String("replay", "", "replay file")
 	workers := flag.Int("workers", 0, "number of workers")
 	list := flag.Bool("list", false, "list properties")
+	describe := flag.Bool("describe", false, "describe properties as JSON")
 	flag.Parse()
 
 	if r := os.Getenv("VERIF_ROOT"); r != "" {
 		verifRoot = r
+	}
+
+	if *describe {
+		d := map[string]any{}
+		for id, p := range registry {
+			d[id] = map[string]any{"level": p.Level, "rule": p.Rule, "assumptions": p.Assumptions, "technique": p.Technique}
+		}
+		b, _ := json.MarshalIndent(d, "", " ")
+		fmt.Println(string(b))
+		return
 	}
 
 	if *list {
